@@ -220,6 +220,26 @@ fn run_entry(prop: &str, scn: &Scenario, n: u64, verif_seed: u64, workers: usize
                 *agg.known_hits.entry(k.id.clone()).or_insert(0) += 1;
                 continue;
             }
+            // C20 re-reports every broken guarantee seen in the interleaved runs; one that is a
+            // listed finding of its own property is that same finding, not a new one
+            if v.prop == "C20" && v.oracle == "guarantee-broken-under-concurrent-handle-use" {
+                let mut it = v.disc.splitn(3, '/');
+                if let (Some(ip), Some(io), Some(id)) = (it.next(), it.next(), it.next()) {
+                    let inner_sig = format!("{}/{}/{}", ip, io, id);
+                    let hit = known.iter().find(|k| {
+                        k.status == "open"
+                            && k.property == ip
+                            && match k.signature_prefix.strip_suffix('*') {
+                                Some(p) => inner_sig.starts_with(p),
+                                None => inner_sig == k.signature_prefix,
+                            }
+                    });
+                    if let Some(k) = hit {
+                        *agg.known_hits.entry(k.id.clone()).or_insert(0) += 1;
+                        continue;
+                    }
+                }
+            }
             let sig = v.signature();
             if seen_sigs.insert(sig) {
                 agg.violations.push((scn.name().to_string(), r.idx, run_seed(verif_seed, scn, r.idx), v, o.tape.clone()));
